@@ -576,7 +576,7 @@ void bodyGammaQ(vrt::Case& c)
   for (double p : ps)
   {
     bool documented = p > .000002 && p < .999998, boundary = (p == .000002 || p == .999998);
-    double q = chisq ? val(QCHISQ, p, v, 0, !documented) : val(QGAMMA, p, alpha, beta, !documented);
+    double q = chisq ? val(QCHISQ, p, v) : val(QGAMMA, p, alpha, beta);
     auto callS = [&] { return chisq ? "qChisq(" + str(p) + "," + str(v) + ")" : "qGamma(" + str(p) + "," + str(alpha) + "," + str(beta) + ")"; };
     string reg = regionQChisq(p, v);
     string cls = string("fn=") + fn + ",region=" + reg;
